@@ -260,6 +260,7 @@ class Engine:
         self.phi_changed = False
         self.opaque = set(opaque or ())   # workspace function names to treat as opaque
         self.site_counter = 0
+        self.ctrl = {}          # (frame_key, merge block) -> switch discriminant terms deciding which edge reaches it
         self.cur = None         # (frame, block) being executed
         self.param_writes = {}  # (frame_key, block, loc, path) -> fn name : writes into root-parameter pointees
         self.n_frames = 0
@@ -393,7 +394,10 @@ class Engine:
     def eval_const_body(self, f):
         fr = Frame("const:" + f.path, f, {}, None, None)
         st = {}
-        ret, _ = self.run_frame(fr, st, [])
+        ret, out = self.run_frame(fr, st, [], keep_locals=True)
+        if ret is not None and ret.op == "ref" and out is not None:
+            # a promoted `&CONST`: the referent lives in the constant's own frame -> reference to a value
+            ret = mk("refv", self.load(out, ret.args[0], ret.args[1]))
         return ret if ret is not None else mk("constdef", f.path)
 
     def operand(self, state, frame, o):
@@ -502,7 +506,7 @@ class Engine:
         ret, out = self.run_frame(frame, state, args)
         return ret, out, frame
 
-    def run_frame(self, frame, state, args):
+    def run_frame(self, frame, state, args, keep_locals=False):
         if frame.depth > MAX_DEPTH:
             raise Unsupported("inlining depth exceeded at %s" % frame.fn.name)
         self.n_frames += 1
@@ -561,7 +565,7 @@ class Engine:
         ret = final.get((frame.key, 0))
         # drop callee locals
         pre = frame.key
-        out = {k: v for k, v in final.items() if not (k[0] == pre)}
+        out = final if keep_locals else {k: v for k, v in final.items() if not (k[0] == pre)}
         self.events[(frame.key, "ret", "ret")] = {"kind": "ret", "fn": fn.name, "value": ret, "frame": frame.key}
         return ret, out
 
@@ -587,13 +591,25 @@ class Engine:
                     edge_facts[(b, tb)] = (d, "in", tuple(vs))
             if otherwise not in tv:
                 edge_facts[(b, otherwise)] = (d, "notin", allvals)
+        # control conditions of merge blocks: switches between idom(b) and b
+        idom = cfg.idom()
+        for b in cfg.rpo:
+            if len(cfg.pred[b]) < 2 or b not in idom:
+                continue
+            top = idom[b]
+            region = cfg.reachable_from(top)
+            conds = []
+            for x in region:
+                sw = self.switch_terms.get((frame.key, x))
+                if sw is not None and x != b or (sw is not None and x == b and b in cfg.loop_heads()):
+                    if b in cfg.reachable_from(x):
+                        conds.append(sw[0])
+            # a loop head is also controlled by the loop's exit/continue tests inside the loop body
+            self.ctrl[(frame.key, b)] = conds
         for b in cfg.rpo:
             if b not in in_states:
                 continue
             facts = set()
-            for d in cfg.dominators(b):
-                # edges into d from its idom chain: find switch edges (a -> s) with s dominating b
-                pass
             for (a, s), f in edge_facts.items():
                 if cfg.edge_dominates(a, s, b):
                     facts.add(f)
